@@ -39,6 +39,7 @@ ASSUMPTIONS = ["positions and instants re-read through getX/getY/getZ and the Ob
                "tracks have at least 2 fixes (the one-sided rule needs a neighbour)"]
 EXHAUSTIVE = {"quick": "all 4^(n-1) {same/new position} x {same/later instant} leg patterns for n = 2..6 (1 364 tracks)",
               "thorough": "all 4^(n-1) {same/new position} x {same/later instant} leg patterns for n = 2..7 (5 460 tracks)"}
+SOFT_MONITORS = ['ds.nonnegative', 'integrator.starts_at_zero']      # contracts on private helpers: diagnostics, see vt/runner.py
 CASE_LIMIT_S = 20.0
 
 BASE_1970 = gen.ms_from_fields(1970, 1, 2, 3, 4, 5, 0)
